@@ -147,7 +147,8 @@ def gen_items(rng, force=None):
         else:
             items.append(("input", False, [gen_input_name(rng)]))
     if rng.random() < 0.01:
-        items.append(("x", rng.random() < 0.5, [rng.choice(["c++", "", "C", "objective-c"])]))
+        v = rng.choice(["c++", "", "C", "objective-c"])
+        items.append(("x", v == "" or rng.random() < 0.5, [v]))
     nopt = rng.choice([0, 1, 2, 3, 4, 6, 8])
     opts = [gen_option(rng) for _ in range(nopt)]
     if force:
@@ -582,7 +583,7 @@ def run(ck):
             n = 30 if ck.quick else 300
         cases = ([dict(c) for c in corpus] if ti < 3 else []) + [gen_case(ck.rng, i) for i in range(n)]
         model_batch(ck, drv, cases)
-        with concurrent.futures.ThreadPoolExecutor(max(4, common.NPROC)) as ex:
+        with concurrent.futures.ThreadPoolExecutor(min(6, max(2, common.NPROC))) as ex:
             runs = list(ex.map(lambda c: drv.run(c["argv"], files=files_for(c["argv"])), cases))
         for c, r in zip(cases, runs):
             shape = tuple(tuple(s["stage"][0] for s in p["stages"]) for p in c["model"].get("pipelines", []))
